@@ -523,6 +523,30 @@ def _case_variants(ext: str):
         yield "".join(s)
 
 
+# ASCII letter (or letter pair) -> characters that lower(), upper(), casefold() or compatibility normalisation map to it
+CASELESS_EQUIVALENTS = {
+    "s": ["\u017f"], "k": ["\u212a"], "i": ["\u0130", "\u0131"], "ss": ["\u00df", "\u1e9e"], "fi": ["\ufb01"], "fl": ["\ufb02"], "st": ["\ufb06", "\ufb05"], "ff": ["\ufb00"],
+    "a": ["\uff41", "\u00e5", "\u212b"], "d": ["\uff44"], "o": ["\uff4f"], "c": ["\uff43", "\u217d"], "x": ["\uff58", "\u2179"], "m": ["\uff4d", "\u217f"], "l": ["\uff4c", "\u217c"],
+    "p": ["\uff50"], "t": ["\uff54"], "e": ["\uff45"], "g": ["\uff47"], "z": ["\uff5a"], "v": ["\u2174"], "h": ["\uff48"], "j": ["\uff4a"], "n": ["\uff4e"], "r": ["\uff52"], "b": ["\uff42"],
+    "u": ["\uff55"], "2": ["\uff12", "\u00b2"], "7": ["\uff17"], ".": ["\uff0e", "\u2024"],
+}
+
+
+def _caseless_variants(ext: str):
+    """ext with one letter (or letter pair) replaced by each of its Unicode caseless / compatibility equivalents."""
+    out = []
+    for key, subs in CASELESS_EQUIVALENTS.items():
+        start = 0
+        while True:
+            i = ext.find(key, start)
+            if i < 0:
+                break
+            for ch in subs:
+                out.append(ext[:i] + ch + ext[i + len(key):])
+            start = i + 1
+    return list(dict.fromkeys(out))
+
+
 def _mix(rng, ext: str) -> str:
     return "".join(ch.upper() if rng.random() < 0.5 else ch.lower() for ch in ext)
 
@@ -583,6 +607,12 @@ class Workload:
         toks = FUZZ_TOKENS + ["." + e for e in routed] + ["." + e.upper() for e in routed] + routed
         for _ in range(run.n(12000, 250000)):
             add("".join(rng.choice(toks) for _ in range(rng.randint(1, 7))), "F")
+        # U. Unicode characters that some caseless comparison (lower / upper / casefold / NFKC) identifies with an ASCII letter, put in place of
+        #    that letter in every documented extension: the two entry points must still agree, whatever they make of such a spelling
+        for ext in routed:
+            for var in _caseless_variants(ext):
+                for _ in range(run.n(1, 4)):
+                    g = (add(rng.choice(DIRS) + rng.choice(STEMS) + "." + var, "U"), add(rng.choice(DIRS[:6]) + "f." + var.upper(), "U"))
         # S. degenerate strings
         for p in ["", " ", ".", "..", "...", "/", "//", "\\", ":", "data:", "data:,", "data:;base64,", "http://", "?", "#", "\x00", "\n",
                   "./", "../", "~", "-", "a", "A.", ".a", "a/", "a/.", "a/..", ".\ud800", "x" * 5000 + ".pdf", "x." + "y" * 5000,
